@@ -133,3 +133,49 @@ func nbhdSub(r *core.Run, name string, cfg core.Cfg, fn func(s *core.Sub, cv *co
 	s.Transitions.Store(s.Evals.Load())
 	s.Done()
 }
+
+// wordsSub runs one exhaustive word enumeration as a sub-check. mk is called once per worker and returns the
+// per-word function; that function returns the digest to record as distinct (0 = trivial case, not recorded).
+func wordsSub(r *core.Run, name, rule string, toks []string, n int, mk func(s *core.Sub, w int) func(word []byte) uint64) *core.Sub {
+	s := r.Sub(name, fmt.Sprintf("every word of ≤%d tokens over %q; %s", n, toks, rule))
+	s.Planned = core.CountWords(len(toks), n)
+	s.Bound = fmt.Sprintf("N=%d |A|=%d", n, len(toks))
+	var visited int64
+	visited, complete := core.ForEachWord(toks, n, core.Workers(), func(w int) func([]byte) {
+		f := mk(s, w)
+		var cnt int64
+		return func(word []byte) {
+			h := f(word)
+			if h != 0 {
+				s.Distinct(h)
+			}
+			cnt++
+			if w == 0 {
+				s.MaybeSample(cnt, func() any { return core.Q(word) })
+			}
+		}
+	}, r.Expired)
+	s.States.Store(visited)
+	if s.Evals.Load() == 0 {
+		s.Evals.Store(visited)
+	}
+	if s.Evals.Load() >= visited && complete {
+		s.Planned = 0 // the word count was met; Evals may count several conversions per word
+	}
+	if !complete {
+		s.Incomplete("internal deadline reached before all shards ran")
+	}
+	s.Transitions.Store(s.Evals.Load())
+	s.Done()
+	return s
+}
+
+// mustConvert converts or records a violation; ok=false when conversion failed.
+func mustConvert(s *core.Sub, cv *core.Conv, doc []byte) (out []byte, ok bool) {
+	out, err, pan := cv.Convert(doc)
+	if pan != nil || err != nil {
+		s.Violate("convert-failed:"+cv.Site, cv.Cfg.String(), doc, nil, fmt.Sprint("panic=", pan, " err=", err), "", "")
+		return nil, false
+	}
+	return out, true
+}
